@@ -302,6 +302,11 @@ func (fs *ReaderFS) Open(name string) (hackpadfs.File, error) {
 		return nil, &hackpadfs.PathError{Op: "open", Path: name, Err: hackpadfs.ErrInvalid}
 	}
 	fs.ps.Wait(name)
+	if !fs.ps.Visited(name) {
+		// not announced as completely written: the wait ended because reading stopped (end of archive, failure
+		// or cancellation). Wait until the reader has recorded its result, so a partially written file is never opened.
+		<-fs.Done()
+	}
 	if unarchiveErr := fs.UnarchiveErr(); unarchiveErr != nil {
 		return nil, &hackpadfs.PathError{Op: "open", Path: name, Err: unarchiveErr}
 	}
